@@ -72,14 +72,13 @@ PROPS["C08"] = {
     "frame_scans": [{"file": "src/metadata/s3.rs", "patterns": [".atomic_save_leases("],
                      "allowed_units": ["s3_acquire_lease", "s3_renew_lease", "s3_complete_lease", "s3_fail_lease", "s3_scavenge_leases"],
                      "message": "the lease file is written only by the five lease operations under contract"}],
-    "verus": ["c08_leases.rs.in"],
+    "verus": ["c08_leases.rs.in", "c02_save.rs.in"],
     "explanation": "",
     "assumptions": [
         "HashMap::retain / values().filter().flat_map().collect() / iter().filter().cloned().collect() have their std meaning, stated over the lifted closure predicates",
         "chrono::DateTime<Utc> is a totally ordered instant; Utc::now() is the shared monotone clock, far from i64 overflow; + Duration::seconds(300) is exact",
         "uuid::Uuid::new_v4() is fresh with respect to ids already in the lease file",
         "object-store backend: other nodes follow the same protocol (every version of the lease file they write satisfies the invariant); conditional PUT succeeds only if the ETag is the one returned by the load of the same attempt, atomically",
-        "object-store complete / fail / renew / scavenge bodies are not under contract yet (same logic as the in-memory ones, which are)",
     ],
 }
 
@@ -89,7 +88,7 @@ PROPS["C13"] = {
     "frame_scans": [{"file": "src/metadata/s3.rs", "patterns": [".atomic_save_shard("],
                      "allowed_units": ["s3_update_shard_body"],
                      "message": "shard metadata objects are written only by update_shard_metadata (generation-fenced)"}],
-    "verus": ["c13_generation.rs.in"],
+    "verus": ["c13_generation.rs.in", "c02_save.rs.in"],
     "explanation": "",
     "assumptions": [
         "conditional PUT: create-if-absent for the \"none\" tag, update only if the stored ETag equals the one given, atomic, no effect on failure (ghost shard store shim)",
@@ -132,12 +131,12 @@ PROPS["C20"] = {
 
 PROPS["C02"] = {
     "level": "other",
-    "technique": "Verus contracts on the extracted CAS machinery: the cas_retry! macro body (at most 5 attempts, Ok only from a successful attempt, conflict => retry, other errors returned at once), put_with_cas (create-if-absent / update-if-ETag, conflicts mapped to Error::Conflict, overwrite only behind the opt-in) and the one-attempt bodies of register / delete / complete_compaction as pure transformers of the catalog loaded in the same attempt that keep chunk map and time index consistent",
+    "technique": "Verus contracts on the five atomic_save_* wrappers (each serialises exactly the value it is given and reaches put_with_cas once, for that object's own path, conditional on the ETag the caller passed) and the five load_*_with_etag functions (value and ETag come from one GET of that object; \"none\" and the empty value iff the object is absent; the catalog's empty-file and legacy cases); Verus contracts on the extracted CAS machinery: the cas_retry! macro body (at most 5 attempts, Ok only from a successful attempt, conflict => retry, other errors returned at once), put_with_cas (create-if-absent / update-if-ETag, conflicts mapped to Error::Conflict, overwrite only behind the opt-in) and the one-attempt bodies of register / delete / complete_compaction as pure transformers of the catalog loaded in the same attempt that keep chunk map and time index consistent",
     "frame_scans": [{"file": "src/metadata/s3.rs", "patterns": [".put(", ".put_opts(", ".put_multipart("],
                      "allowed_units": ["put_with_cas"],
                      "allowed_functions": ["save_chunk_metadata_internal", "save_time_index", "save_chunk_metadata", "rebuild_time_index"],
                      "message": "every write of a catalog object goes through put_with_cas (conditional PUT); the four legacy / maintenance functions exempted by name are an assumption of C02"}],
-    "verus": ["c02_cas.rs.in", "c07_s3.rs.in", "c03_compaction.rs.in", "c02_wrappers.rs.in"],
+    "verus": ["c02_cas.rs.in", "c07_s3.rs.in", "c03_compaction.rs.in", "c02_wrappers.rs.in", "c02_save.rs.in"],
     "explanation": "All interleavings are covered through the assumed conditional-PUT contract of the object store, not explored: each attempt is load -> pure transform -> put-with-the-ETag-just-loaded and reports success only after the put succeeded (per-function obligations, discharged); with atomic conditional PUT every successful mutation is f_op(previous version) and every failed one leaves the object unchanged, so the version history is a one-at-a-time history and every version satisfies the chunk-map/time-index invariant. The serialisation argument itself is not mechanised.",
     "assumptions": [
         "frame scan exemptions: save_chunk_metadata (pub test helper), save_chunk_metadata_internal, save_time_index and rebuild_time_index (used by the offline bins backfill_levels / rebuild_metadata) overwrite catalog objects unconditionally; they are assumed not to run concurrently with live writers -- run against a live cluster they would lose concurrent catalog updates",
